@@ -2,7 +2,7 @@
 import vfw
 
 H = 'c02/h_c02.cpp'
-ROOTS = ['h_print_variable']  # h_print_units (harness kept) needs 700 s: isStandardUnit looks the symbolic name up in the 30-entry table
+ROOTS = ['h_print_variable', 'h_print_variable_id', 'h_print_variable_interface']  # h_print_units (harness kept) needs 700 s: isStandardUnit looks the symbolic name up in the 30-entry table
 SRC = vfw.OBJ_SOURCES + ['printer']
 KF = 'C02-unescaped-attribute-text'
 
@@ -12,22 +12,22 @@ def run(fw):
     fw.known_finding_lines()
     excl = ['KNOWN_UNESCAPED_ATTRIBUTE_TEXT'] if fw.kf_listed(KF) else []
     defs = ['MAXLEN=%d' % n, 'VSTD_STR_CAP=31'] + excl
-    ms = dict(vfw.pmap(lambda r: (r, fw.build_model('c02_' + r, H, [r], sources=SRC, defines=defs)), ROOTS, 2))
-    mws = dict(vfw.pmap(lambda r: (r, fw.build_model('c02w_' + r, H, [r], sources=SRC, defines=defs + ['WITNESS'])), ROOTS, 2))
+    ms = dict(vfw.pmap(lambda r: (r, fw.build_model('c02_' + r, H, [r], sources=SRC, defines=defs)), ROOTS, 3))
+    mws = dict(vfw.pmap(lambda r: (r, fw.build_model('c02w_' + r, H, [r], sources=SRC, defines=defs + ['WITNESS'])), ROOTS, 3))
     fw.log('models built')
     fw.assumptions += ['names of length <= %d over all byte values that are XML characters (tab, LF, CR, >= 0x20); longer names are outside the claim' % n,
-                       'only PrinterImpl::printVariable with a name and no other attribute: the other elements/attributes, math, connections, '
+                       'only PrinterImpl::printVariable with one attribute at a time (name, id, interface): the other elements/attributes, math, connections, '
                        'the libxml2 re-parse/pretty-print and the parser side of the round trip are outside this slice',
                        'reference = XML 1.0 AttValue reader with entity decoding and attribute-value normalisation, written in the harness']
     if excl:
         fw.assumptions.append('listed finding %s: names containing & < " tab LF CR are excluded from the query (each is replayed on the real library above)' % KF)
     u = 34
     to = 900 if fw.tier == 'quick' else 2400
-    rules = vfw.std_rules(string=34, vector=8, extra=[(r'faithful|readAttValue|startsWith', 6 * n + 22)])
+    rules = vfw.std_rules(string=34, vector=8, extra=[(r'faithful|readAttValue|startsWith', 6 * n + 28)])
 
     def ob(root):
         r = fw.cbmc(ms[root], root, unwind=u, unwindset=fw.unwindset(ms[root], root, rules), timeout=to, label='%s[len<=%d]' % (root, n),
-                    symbolic='name length and %d bytes' % n)
+                    symbolic='attribute text: length and %d bytes' % n)
         fw.log(root, r['status'], r['wall'], [f['msg'] for f in r['failed']][:5])
         fw.handle(r, H, defs)
 
